@@ -132,7 +132,7 @@ def _obs_array(ra, other_dt):
                 c.ravel()[...] = c.ravel()[::-1].copy()
                 c.fill(np.zeros(1, dtype=c.dtype)[0])
             if np.asarray(ra.ravel()).tobytes() != keep.tobytes():
-                raise AssertionError("astype returned an array that shares its cells with the source")
+                raise engine.Inconsistent("astype returned an array that shares its cells with the source")
         return ra.astype(other_dt)
     o["astype"] = guarded(astype_other)
     o["to_numpy"] = guarded(lambda: ra.to_numpy_array())
@@ -251,7 +251,7 @@ def run_impl(p):
                 first = outs[0]
                 if not all(np.asarray(x.ravel()).tobytes() == np.asarray(first.ravel()).tobytes() and list(x.lengths) == list(first.lengths)
                            and x.dtype == first.dtype for x in outs):
-                    raise AssertionError("from_numpy_array depends on the memory layout of its argument")
+                    raise engine.Inconsistent("from_numpy_array depends on the memory layout of its argument")
                 return first
             o["numpy_roundtrip_layouts"] = guarded(nprt_layouts)
             def from_ndarray_rows():
